@@ -405,6 +405,9 @@ func checkC04(c *Ctx) {
 			return
 		}
 		if hasMsgViolation(body) || usesLoopFuncOutsideLoop(body) {
+			if always {
+				c.Count("always_run_bodies_dropped_loopfunc", 1)
+			}
 			return
 		}
 		names := map[string]bool{}
@@ -422,7 +425,24 @@ func checkC04(c *Ctx) {
 		t := &Tmpl{NS: "app.main", Name: "entry", Params: params, Body: body, Header: variant&1 == 1}
 		main := &File{Name: "main.soy", NS: "app.main", Aliases: []string{"lib.deep"}, Tmpls: []*Tmpl{t}}
 		files := withLib(main, lib)
-		if len(checkRules(files)) > 0 {
+		if always && checkRules(files)["unused-param"] {
+			// the hand-written bodies bind some of their names themselves: declare only the names
+			// that are free in the body (dropping a declaration must not leave a reference unbound)
+			for i := 0; i < len(t.Params); {
+				keep := t.Params
+				t.Params = append(append([]Param{}, keep[:i]...), keep[i+1:]...)
+				if rs := checkRules(files); rs["unbound-reference"] {
+					t.Params = keep
+					i++
+				}
+			}
+			params = t.Params
+		}
+		if rs := checkRules(files); len(rs) > 0 {
+			if always {
+				c.Count("always_run_bodies_dropped_rules", 1)
+				c.Note("always_run_rule", fmt.Sprint(rs))
+			}
 			return
 		}
 		var ds []data.Map
@@ -444,7 +464,13 @@ func checkC04(c *Ctx) {
 			}
 		}
 		if len(ds) == 0 {
+			if always {
+				c.Count("always_run_bodies_dropped_nodata", 1)
+			}
 			return
+		}
+		if always {
+			c.Count("always_run_bodies_compared", 1)
 		}
 		srcs := map[string]string{"main.soy": main.src()}
 		r := renderBoth(libSrcs(srcs, lib), srcs, nil, []string{"app.main.entry"}, ds, exprIJ, nil)
@@ -464,9 +490,12 @@ func checkC04(c *Ctx) {
 	for _, body := range [][]*Cmd{
 		{show("x", txt("a"), show("x", txt("b"), pr(vr("y"))), txt("c"))},
 		{show("y", txt("a"), show("y", txt("b")), txt("c"), show("y", pr(vr("x"))))},
-		{show("x", txt("["), &Cmd{K: "foreach", Var: "y", E: vr("l"), Body: []*Cmd{show("x", pr(vr("y")))}}, txt("]"))},
+		{show("x", txt("("), &Cmd{K: "foreach", Var: "y", E: vr("l"), Body: []*Cmd{show("x", pr(vr("y")))}}, txt(")"))},
 		{show("x", txt("1"), show("x", txt("2"), show("x", txt("3"), pr(vr("y"))), txt("4")), txt("5")), pr(vr("y"))},
 		{{K: "letc", Var: "y", Body: []*Cmd{txt("p"), show("x", txt("q"), &Cmd{K: "letc", Var: "y", Body: []*Cmd{txt("r")}}, pr(vr("y"))), txt("s")}}, pr(vr("y"))},
+		// variables named like the names a generator derives for a loop over $y
+		{{K: "foreach", Var: "y", E: vr("l"), Body: []*Cmd{{K: "let", Var: "yIndex", E: bin("+", call("index", vr("y")), I(10))}, {K: "let", Var: "yList", E: S("w")}, txt("("), pr(vr("y")), pr(vr("yIndex")), pr(vr("yList")), txt(")")}}},
+		{{K: "letc", Var: "yList", Body: []*Cmd{txt("L")}}, {K: "let", Var: "yLimit", E: I(7)}, {K: "for", Var: "y", E: call("range", I(3)), Body: []*Cmd{pr(vr("y")), pr(vr("yLimit")), pr(vr("yList"))}}, {K: "let", Var: "y1", E: I(1)}, {K: "let", Var: "y", E: I(2)}, pr(vr("y1")), pr(vr("y"))},
 	} {
 		handle(body, 0)
 		handle(body, 1)
